@@ -323,6 +323,14 @@ fn random_doc(r: &mut Rng, maxl: usize, maxa: usize, maxv: usize) -> Value {
         let mut attrs = vec![];
         for _ in 0..na {
             let key = *r.pick(&keys);
+            // values whose edges are (non-ASCII) white space, with nothing that forces quoting in between
+            let ws = ['\u{85}', '\u{A0}', '\u{1680}', '\u{2000}', '\u{2003}', '\u{200A}', '\u{2028}', '\u{2029}', '\u{202F}', '\u{205F}', '\u{3000}', ' ', '\t'];
+            if r.chance(1, 5) {
+                let mid: String = (0..r.below(4)).map(|_| *r.pick(&['a', '7', 'é', '漢', 'Z'])).collect();
+                let val = match r.below(3) { 0 => format!("{}{}", r.pick(&ws), mid), 1 => format!("{}{}", mid, r.pick(&ws)), _ => format!("{}{}{}", r.pick(&ws), mid, r.pick(&ws)) };
+                attrs.push(json!({"key": cps(key), "kind": if r.chance(3, 4) { "attr" } else { "quoted" }, "val": cps(&val)}));
+                continue;
+            }
             let (kind, val) = match r.below(6) {
                 0 => ("u32", (*r.pick(&[0u32, 1, 40, 65535, 65536, u32::MAX])).to_string()),
                 1 => ("u16", (*r.pick(&[0u16, 7, 255, 65535])).to_string()),
